@@ -41,7 +41,8 @@ type RefOpts struct {
 }
 
 type refEv struct {
-	env   reflect.Value // struct value (Env)
+	env    reflect.Value // struct value (Env)
+	envPtr reflect.Value // the pointer, when the environment was passed by pointer (its method set is larger)
 	clos  []interface{}
 	opts  RefOpts
 	res   *RefResult
@@ -65,10 +66,12 @@ func RefEval(x *X, env interface{}, opts RefOpts) (res *RefResult) {
 	}
 	res = &RefResult{}
 	ev := reflect.ValueOf(env)
+	var evPtr reflect.Value
 	if ev.Kind() == reflect.Ptr {
+		evPtr = ev
 		ev = ev.Elem()
 	}
-	e := &refEv{env: ev, opts: opts, res: res}
+	e := &refEv{env: ev, envPtr: evPtr, opts: opts, res: res}
 	defer func() {
 		res.Alloc = e.alloc
 		if r := recover(); r != nil {
@@ -606,6 +609,9 @@ func (e *refEv) eval(x *X) interface{} {
 			args = append(args, e.eval(a))
 		}
 		fn := e.env.MethodByName(x.Name)
+		if !fn.IsValid() && e.envPtr.IsValid() {
+			fn = e.envPtr.MethodByName(x.Name)
+		}
 		if !fn.IsValid() {
 			fn = e.env.FieldByName(x.Name)
 		}
